@@ -446,7 +446,7 @@ class Check(PropertyCheck):
             "connection fates) then random histories of <= 12 steps: requests (with requestheaders/request rewrites of host, "
             "port, scheme, via by assignment or by replacing server_conn), connect results, responses (keep-alive / close), "
             "peer closes, pokes of address/via; distinct = distinct history; non-trivial = at least one connection was opened.")
-    budget = {"quick": 3000, "thorough": 60000}
+    budget = {"quick": 2200, "thorough": 60000}
     time_budget = {"quick": 25, "thorough": 600}
     fingerprints = ["mitmproxy.proxy.layers.http:GetHttpConnection.connection_spec_matches",
                     "mitmproxy.proxy.layers.http:HttpLayer.get_connection",
